@@ -156,14 +156,20 @@ structure SpecSets where
   nrings : Nat
   enumOk : Bool           -- the two enumerators agree (small pools)
 
-def specSets (pool : List Fragment) : SpecSets :=
+/-- `needAll = false` (designed assemblies proper): only the simple rings are enumerated (the set of ALL closed
+chains of a library contains every multi-lap concatenation of alternatives and is astronomically larger). -/
+def specSets (needAll : Bool) (pool : List Fragment) : SpecSets :=
   let vals := pool.eraseDups
-  let rw := ringsWalk pool
-  let enumOk := if vals.length ≤ 5 then ringCodes vals rw == ringCodes vals (ringsBrute pool) &&
+  let rw := ringsWalk (!needAll) pool
+  let enumOk := if vals.length ≤ 5 then
+      ringCodes vals (ringsWalk false pool) == ringCodes vals (ringsBrute pool) &&
+      ringCodes vals ((ringsWalk true pool).filter fun os => decide (Simple os)) ==
+        ringCodes vals ((ringsBrute pool).filter fun os => decide (Simple os)) &&
       rw.all (fun os => decide (Ring pool os)) else true
-  let all := ringKeys vals rw
-  let simple := ringKeys vals (rw.filter fun os => decide (Simple os))
-  { all, simple, nrings := (ringCodes vals rw).length, enumOk }
+  let simpleRings := rw.filter fun os => decide (Simple os)
+  let simple := ringKeys vals simpleRings
+  let all := if needAll then ringKeys vals rw else simple
+  { all, simple, nrings := (ringCodes vals (if needAll then rw else simpleRings)).length, enumOk }
 
 /-- model: canonical forms of `CircularLigate(pool)` (the same for every arrival order: ligate_schedule) -/
 def modelSet (pool : List Fragment) : List Str :=
@@ -197,9 +203,9 @@ EXACTLY the simple rings.  For all other pools the verdict is the sandwich `simp
 def strictTag (tag : String) : Bool := tag.startsWith "design" && !tag.startsWith "design-loose"
 
 def judgeRuns (su : Setup) (race : String) (runs : List String) : Verdict :=
-  let sp := specSets su.poolSpec
-  let parsed := runs.map parseRun
   let strict := strictTag su.tag
+  let sp := specSets (!strict) su.poolSpec
+  let parsed := runs.map parseRun
   let cls0 := su.kind ++ "/" ++ su.tag ++ "/rings=" ++ bucket sp.nrings ++
     (if strict || sp.all == sp.simple then "/exact" else "/sandwich")
   let triv := su.poolSpec.length < 2 || sp.nrings == 0
